@@ -253,7 +253,7 @@ theorem sameConfigs_of_guard {isOther : Char → Bool} (hC : AsciiContract isOth
     obtain ⟨ex, newOrigs, hex, hg, hpass, c1, c2, c3, c4, c5⟩ :=
       reparse_block hC ha.block ha.clean ha.prepared ha.outcome ha.block'
     obtain ⟨hcode0, hcode1⟩ := hcodes r (List.mem_of_getElem? ha.run)
-    rw [expLines_afterLines newOrigs c5 r.code hcode0 hcode1] at c2
+    rw [expLines_afterLines newOrigs (fun o h => extractExitCode_of_not_form (c5 o h)) r.code hcode0 hcode1] at c2
     obtain ⟨uu, huu, hpu⟩ := hprep.get j t ha.test
     rw [ha.prepared] at hpu
     cases hpu
